@@ -27,8 +27,14 @@ const char* W_CAT(slot_file, SLOT)() { return __FILE__; }
 // the object expression carries the slot number, so the expectation text (reports, OK reports,
 // trace records) identifies the slot as well: "wmock_s<3>(s.obj).f(dm_int(s.m[0]))"
 #define W_OBJ2(K) wmock_s<K>(s.obj)
+// clause order: even slots write IN_SEQUENCE before RT_TIMES, odd slots RT_TIMES before IN_SEQUENCE (both are documented)
+#if SLOT % 2
+#define W_MK(OBJ, CALL, SEQC, WITHC, TERM) \
+  return Created{NAMED_REQUIRE_CALL(OBJ, CALL).RT_TIMES(lo, hi) SEQC WITHC W_FX TERM, __LINE__}
+#else
 #define W_MK(OBJ, CALL, SEQC, WITHC, TERM) \
   return Created{NAMED_REQUIRE_CALL(OBJ, CALL) SEQC.RT_TIMES(lo, hi) WITHC W_FX TERM, __LINE__}
+#endif
 
 #define W_FORMS(FN, CALL, WITHC, TERM0)               \
   case FN * 6 + 0: W_MK(W_OBJ2(SLOT), CALL, W_SEQ0, WITHC, TERM0);  \
